@@ -837,7 +837,7 @@ class Connection(Updatable, Module, ABC):
 
     @synapse.setter
     def synapse(self, value: Synapse) -> None:
-        self.synapses = value
+        self.synapse_ = value
 
     @property
     def batchsz(self) -> int:
